@@ -82,6 +82,19 @@ pub fn replay(cases: &str, verdicts: &str) {
                     v.check(ok, &format!("{} non-finite fill values", variant), &class, &json!({"case": c, "left_fill": fj(lf), "right_fill": fj(rf)}), json!(g.as_ref().map(|r| fjs(r))));
                 }
             }
+            // neighbouring targets in one call - one ulp below, at, and one ulp above the target, in both orders: each is answered as if it
+            // had been asked alone (bit for bit), however close the targets are to one another
+            {
+                let trio = [next_down(t), t, next_up(t)];
+                let single: Vec<Option<Vec<f64>>> = trio.iter().map(|q| run(&[*q])).collect();
+                for order in [[0usize, 1, 2], [2, 1, 0], [1, 0, 1]] {
+                    let tg: Vec<f64> = order.iter().map(|i| trio[*i]).collect();
+                    let g = run(&tg);
+                    let want: Option<Vec<f64>> = order.iter().map(|i| single[*i].as_ref().map(|r| r[0])).collect();
+                    let okn = match (&g, &want) { (Some(g), Some(w)) => g.len() == 3 && g.iter().zip(w).all(|(a, b)| a.to_bits() == b.to_bits() || (a.is_nan() && b.is_nan())), (None, None) => true, _ => false };
+                    v.check(okn, &format!("{} neighbouring targets in one call", variant), &class, &json!({"case": c, "targets": fjs(&tg)}), json!(g.as_ref().map(|r| fjs(r))));
+                }
+            }
             // several targets in one call: each answered independently (first knot in the middle)
             let g3 = run(&[t, x[0], t]);
             v.check(judge(&g3, 3), &format!("{} multi", variant), &class, &c, json!(g3.as_ref().map(|r| fjs(r))));
